@@ -78,6 +78,11 @@ type Monitor struct {
 	holders   map[string]*big.Int
 	timeoutMs uint64
 	// ghost state
+	ghostObsH            map[string]uint64 // chain -> external height of the last applied event (C13)
+	loopMode             bool              // "world loop": executions happen on the ghost external chain, the hub only hears of them
+	loopTainted          bool              // an execution claim the ghost contracts could not have emitted: history is not truthful
+	ext                  *extWorld
+	pendingExec          map[string]pendExec // chain/eventNonce -> paid out externally, event not yet applied by the hub
 	debits               map[string]debit  // chain/id -> hub units taken from the sender
 	terminal             map[string]string // chain/id -> "executed" | "refunded"
 	everLive             map[string]bool
@@ -292,7 +297,7 @@ func (m *Monitor) Before(g *Gen, line string) {
 		return
 	}
 	switch w[0] {
-	case "send", "cancel", "reqbatch", "begin", "end", "vote", "fund", "confirm", "delegate", "q_confs", "q_unsigned_sets", "q_unsigned_batches", "staking":
+	case "world", "send", "cancel", "reqbatch", "begin", "end", "vote", "fund", "confirm", "delegate", "q_confs", "q_unsigned_sets", "q_unsigned_batches", "staking":
 		m.before = m.snap(g)
 	default:
 		m.before = nil
@@ -1476,6 +1481,33 @@ func (m *Monitor) checkC10(g *Gen, w []string, out string, b, a *snapshot) {
 // ---------------------------------------------------------------- C13
 
 func (m *Monitor) checkC13(g *Gen, w []string, out string, b, a *snapshot) {
+	// the observed external height is, by definition, the height carried by the last applied event;
+	// it is tracked here independently of what the keeper stored
+	if m.ghostObsH == nil || w[0] == "init" || w[0] == "export_import" {
+		m.ghostObsH = map[string]uint64{}
+		src := b
+		if w[0] == "init" || w[0] == "export_import" {
+			src = a
+		}
+		for _, c := range g.chains {
+			m.ghostObsH[c] = src.obsExt[c]
+		}
+	}
+	obsBefore := map[string]uint64{}
+	for _, c := range g.chains {
+		obsBefore[c] = m.ghostObsH[c]
+		if w[0] == "end" {
+			for _, r := range appliedEvents(b, a, c) {
+				if ev, ok := r.event.(types.ExternalEvent); ok {
+					m.ghostObsH[c] = ev.GetExternalHeight()
+				}
+			}
+		}
+		if a.obsExt[c] != m.ghostObsH[c] {
+			m.report(g, "observed-height-moved-without-applied-event", fmt.Sprintf("chain %s: stored observed height %d, height of the last applied event %d (op %v)", c, a.obsExt[c], m.ghostObsH[c], w))
+			m.ghostObsH[c] = a.obsExt[c] // report once per divergence
+		}
+	}
 	for _, c := range g.chains {
 		still := map[string]bool{}
 		for _, x := range a.batches[c] {
@@ -1525,8 +1557,8 @@ func (m *Monitor) checkC13(g *Gen, w []string, out string, b, a *snapshot) {
 				if c == "minter" {
 					m.report(g, "minter-batch-withdrawn", fmt.Sprintf("batch %s", k))
 				}
-				if !(x.timeout < b.obsExt[c]) {
-					m.report(g, "batch-withdrawn-before-timeout", fmt.Sprintf("chain %s batch %s timeout %d observed height %d", c, k, x.timeout, b.obsExt[c]))
+				if !(x.timeout < obsBefore[c]) {
+					m.report(g, "batch-withdrawn-before-timeout", fmt.Sprintf("chain %s batch %s timeout %d observed height %d", c, k, x.timeout, obsBefore[c]))
 				}
 				if !returned {
 					m.report(g, "withdrawn-batch-transfers-lost", fmt.Sprintf("chain %s batch %s", c, k))
@@ -1702,12 +1734,130 @@ func (m *Monitor) checkC19(g *Gen, w []string, out string, b, a *snapshot) {
 	}
 }
 
+// ---------------------------------------------------------------- the ghost external chains
+
+// extWorld is what the contracts (Hub2.sol: state_lastBatchNonces[token], block.number < _batchTimeout) and the
+// Minter multisig (each transaction once) remember about batches: it decides which executions can happen.
+type ghostBatch struct {
+	chain, token   string
+	nonce, timeout uint64
+	amounts        []*big.Int
+	executed       bool
+}
+
+type pendExec struct {
+	chain, token string
+	paid         *big.Int
+}
+
+type extWorld struct {
+	batches map[string]*ghostBatch
+	order   []string
+	last    map[string]uint64
+}
+
+func newExtWorld() *extWorld { return &extWorld{batches: map[string]*ghostBatch{}, last: map[string]uint64{}} }
+
+func (e *extWorld) observe(chain string, bs []batchView) {
+	for _, x := range bs {
+		k := fmt.Sprintf("%s/%s/%d", chain, x.extToken, x.nonce)
+		if _, ok := e.batches[k]; ok {
+			continue
+		}
+		gb := &ghostBatch{chain: chain, token: x.extToken, nonce: x.nonce, timeout: x.timeout}
+		for _, t := range x.txs {
+			gb.amounts = append(gb.amounts, new(big.Int).Set(t.amount))
+		}
+		e.batches[k] = gb
+		e.order = append(e.order, k)
+	}
+}
+
+// executable: would the external chain execute this batch at external height h?
+func (e *extWorld) executable(chain, token string, nonce, h uint64) *ghostBatch {
+	gb := e.batches[fmt.Sprintf("%s/%s/%d", chain, token, nonce)]
+	if gb == nil || gb.executed {
+		return nil
+	}
+	if chain != "minter" && !(nonce > e.last[chain+"/"+token] && h < gb.timeout) {
+		return nil
+	}
+	return gb
+}
+
+func (e *extWorld) execute(gb *ghostBatch) *big.Int {
+	gb.executed = true
+	if gb.nonce > e.last[gb.chain+"/"+gb.token] {
+		e.last[gb.chain+"/"+gb.token] = gb.nonce
+	}
+	s := big.NewInt(0)
+	for _, a := range gb.amounts {
+		s.Add(s, a)
+	}
+	return s
+}
+
 // ---------------------------------------------------------------- C01
 
 // custody bookkeeping: the harness is the external world; an emitted deposit locks `amount`,
 // an execution event for an existing batch pays out the batch's amounts.
 func (m *Monitor) checkC01(g *Gen, w []string, out string, b, a *snapshot) {
-	if w[0] == "end" && out == "ok" {
+	if w[0] == "world" && len(w) > 1 && w[1] == "loop" {
+		m.loopMode = true
+	}
+	if m.ext == nil {
+		m.ext = newExtWorld()
+		m.pendingExec = map[string]pendExec{}
+	}
+	for _, c := range g.chains {
+		m.ext.observe(c, a.batches[c])
+	}
+	if m.loopMode && w[0] == "vote" && len(w) >= 8 && w[3] == "bex" {
+		// vote <chain> <signer> bex <coin> <eventNonce> <batchNonce> <height> ...: first sight = the execution itself
+		c, coin := w[1], w[4]
+		evN, bn, h := w[5], uint64(0), uint64(0)
+		bn, _ = strconv.ParseUint(w[6], 10, 64)
+		h, _ = strconv.ParseUint(w[7], 10, 64)
+		ek := "seen/" + c + "/" + evN
+		if m.terminal[ek] == "" {
+			if gb := m.ext.executable(c, coin, bn, h); gb != nil {
+				paid := m.ext.execute(gb)
+				add(m.custody, c+"/"+coin, new(big.Int).Neg(paid))
+				m.pendingExec[c+"/"+evN] = pendExec{chain: c, token: coin, paid: paid}
+				m.terminal[ek] = "executed"
+				g.stats["C01:loop-executions"]++
+			} else {
+				m.terminal[ek] = "impossible"
+				m.loopTainted = true
+				g.stats["C01:loop-tainted"]++
+			}
+		}
+	}
+	if m.loopMode && w[0] == "end" && out == "ok" {
+		for _, c := range g.chains {
+			for _, r := range appliedEvents(b, a, c) {
+				switch ev := r.event.(type) {
+				case *types.SendToHubEvent:
+					add(m.custody, c+"/"+ev.ExternalCoinId, ev.Amount.BigInt())
+				case *types.TransferToChainEvent:
+					add(m.custody, c+"/"+ev.ExternalCoinId, ev.Amount.BigInt())
+				case *types.BatchExecutedEvent:
+					delete(m.pendingExec, fmt.Sprintf("%s/%d", c, r.nonce))
+					for _, y := range a.batches[c] {
+						if y.extToken == ev.ExternalCoinId && y.nonce == ev.BatchNonce {
+							if ft := m.tok(c, y.extToken); ft != nil {
+								m.terminal["failed-exec/"+ft.denom] = m.execFailureCause(g, c, y)
+							}
+						}
+					}
+				}
+			}
+		}
+	}
+	if m.loopMode && m.loopTainted {
+		return
+	}
+	if !m.loopMode && w[0] == "end" && out == "ok" {
 		for _, c := range g.chains {
 			for _, r := range appliedEvents(b, a, c) {
 				switch ev := r.event.(type) {
@@ -1765,6 +1915,11 @@ func (m *Monitor) checkC01(g *Gen, w []string, out string, b, a *snapshot) {
 			if v, ok := m.custody[t.chain+"/"+t.ext]; ok {
 				cust.Add(cust, conv(t.dec, D, v))
 			}
+			for _, pe := range m.pendingExec {
+				if pe.chain == t.chain && pe.token == t.ext {
+					cust.Add(cust, conv(t.dec, D, pe.paid))
+				}
+			}
 			for _, s := range a.pool[t.chain] {
 				if s.extToken == t.ext {
 					infl.Add(infl, conv(t.dec, D, new(big.Int).Add(new(big.Int).Add(s.amount, s.fee), s.comm)))
@@ -1788,7 +1943,7 @@ func (m *Monitor) checkC01(g *Gen, w []string, out string, b, a *snapshot) {
 			if fc := m.terminal["failed-exec/"+d]; fc != "" {
 				cls = "execution-event-failed:" + fc
 			}
-			m.report(g, cls, fmt.Sprintf("denom %s after %v: supply %s + in flight %s > custody %s (units 10^-24)", d, w, sup, infl, cust))
+			m.report(g, cls, fmt.Sprintf("denom %s after %v: supply %s + in flight %s > custody + paid-out-but-unobserved %s (units 10^-24)", d, w, sup, infl, cust))
 		}
 	}
 }
